@@ -57,6 +57,20 @@ _SAFE_FUNCS = {"int": int, "abs": abs, "min": min, "max": max, "len": len, "rang
                "any": any, "all": all, "dict": dict}
 
 
+# side-effect-free methods of the built-in containers the evaluated code may call (the object must be exactly of the listed type)
+import itertools as _itertools
+# standard-library helpers the evaluated code may call, under the names the repository imports them by (generators become lists)
+STDLIB_FUNCS = {"_op.attrgetter": lambda name: (lambda o: getattr(o, name)), "_op.itemgetter": lambda k: (lambda o: o[k]),
+                "_it.groupby": lambda it, key=None: [(k, list(g)) for k, g in _itertools.groupby(it, key)],
+                "_it.chain.from_iterable": lambda it: [x for sub in it for x in sub], "_it.chain": lambda *its: [x for sub in its for x in sub],
+                "_it.product": lambda *a, **k: list(_itertools.product(*a, **k)), "_it.accumulate": lambda *a, **k: list(_itertools.accumulate(*a, **k))}
+
+_CONTAINER_METHODS = {"union": (set, frozenset), "intersection": (set, frozenset), "difference": (set, frozenset), "issubset": (set, frozenset),
+                      "get": (dict,), "keys": (dict,), "values": (dict,), "items": (dict,), "index": (list, tuple, str), "count": (list, tuple, str),
+                      "startswith": (str,), "endswith": (str,), "strip": (str,), "lstrip": (str,), "rstrip": (str,), "split": (str,), "lower": (str,),
+                      "upper": (str,), "replace": (str,), "join": (str,), "isdigit": (str,), "removeprefix": (str,), "removesuffix": (str,)}
+
+
 def ev(node, env: dict, funcs: dict | None = None, methods: dict | None = None):
     funcs = funcs or {}
     methods = methods or {}
@@ -67,6 +81,8 @@ def ev(node, env: dict, funcs: dict | None = None, methods: dict | None = None):
         if isinstance(n, ast.Name):
             if n.id in env:
                 return env[n.id]
+            if n.id in _SAFE_FUNCS:
+                return _SAFE_FUNCS[n.id]          # a built-in handed over as a value (key=len, something=max)
             raise NotFinite(f"unbound name {n.id}")
         if isinstance(n, ast.Attribute):
             d = dotted(n)
@@ -129,6 +145,19 @@ def ev(node, env: dict, funcs: dict | None = None, methods: dict | None = None):
             return True
         if isinstance(n, ast.IfExp):
             return e(n.body, env) if e(n.test, env) else e(n.orelse, env)
+        if isinstance(n, ast.Lambda):
+            ps = [a.arg for a in n.args.posonlyargs + n.args.args]
+            if n.args.vararg or n.args.kwarg or n.args.kwonlyargs:
+                raise NotFinite("lambda with star parameters")
+            dflts = [e(d, env) for d in n.args.defaults]
+            def _lam(*a, _n=n, _ps=ps, _env=dict(env), _d=dflts):
+                vals = list(a) + _d[len(_d) - (len(_ps) - len(a)):] if len(a) < len(_ps) else list(a)
+                if len(vals) != len(_ps):
+                    raise NotFinite("lambda arity")
+                env2 = dict(_env)
+                env2.update(zip(_ps, vals))
+                return ev(_n.body, env2, funcs, methods)
+            return _lam
         if isinstance(n, ast.Slice):
             return slice(e(n.lower, env) if n.lower else None, e(n.upper, env) if n.upper else None, e(n.step, env) if n.step else None)
         if isinstance(n, ast.Tuple):
@@ -209,6 +238,27 @@ def ev(node, env: dict, funcs: dict | None = None, methods: dict | None = None):
                     if k.startswith(pref):
                         env["self." + k[len(pref):]] = v
                 return result
+            if isinstance(n.func, ast.Attribute):
+                # a model method: the record carries a Python callable under that name (the checker's model of the collaborator)
+                try:
+                    obj = e(n.func.value, env)
+                except NotFinite:
+                    obj = None
+                if isinstance(obj, FinObj) and callable(obj.__dict__.get(n.func.attr) or getattr(type(obj), n.func.attr, None)):
+                    return getattr(obj, n.func.attr)(*args, **kws)
+            if isinstance(n.func, ast.Attribute) and n.func.attr in _CONTAINER_METHODS:
+                try:
+                    obj = e(n.func.value, env)
+                except NotFinite:
+                    obj = None
+                if type(obj) in _CONTAINER_METHODS[n.func.attr]:
+                    return getattr(obj, n.func.attr)(*args, **kws)
+            if name == "getattr" and len(args) in (2, 3) and isinstance(args[0], FinObj) and isinstance(args[1], str):
+                if args[1] in args[0]._fin_attrs:
+                    return getattr(args[0], args[1])
+                if len(args) == 3:
+                    return args[2]
+                raise NotFinite(f"getattr of an unmodelled attribute {args[1]}")
             if isinstance(n.func, ast.Attribute) and n.func.attr in ("reshape",):
                 try:
                     obj = e(n.func.value, env)
@@ -562,3 +612,26 @@ class FinVec:
 
 
 VECTOR_FUNCS = {"_np.isnan": lambda v: FinVec([x == FinVec.NAN for x in v.items]), "_np.isfinite": lambda v: FinVec([x != FinVec.NAN for x in v.items])}
+
+
+def run_prefix(f, stop, env, funcs=None, methods=None):
+    """Evaluate the top-level statements of f that precede the statement `stop` (or contain it), one by one, in the environment env.
+    A statement that is not finitely evaluable is skipped and the names it binds become unbound (so a later use of them is NotFinite,
+    never a stale value). Returns the environment before `stop`."""
+    from .core import strip_docstring
+    env = dict(env)
+    for st in strip_docstring(f.body):
+        if st is stop or any(x is stop for x in ast.walk(st)):
+            return env
+        fake = ast.FunctionDef(name="_prefix", args=ast.arguments(posonlyargs=[], args=[], kwonlyargs=[], kw_defaults=[], defaults=[]), body=[st], decorator_list=[])
+        after = {}
+        try:
+            run_function(fake, {}, funcs, env, final_env=after, methods=methods)
+            env = after
+        except (NotFinite, Raised):
+            for x in ast.walk(st):
+                if isinstance(x, ast.Name) and isinstance(x.ctx, ast.Store):
+                    env.pop(x.id, None)
+                elif isinstance(x, ast.Attribute) and isinstance(x.ctx, ast.Store) and dotted(x):
+                    env.pop(dotted(x), None)
+    return env
